@@ -118,6 +118,52 @@ def invoke(case, tmp):
     return {"kind": "odd", "exit": res.exit_code, "calls": ra.call_count, "exc": repr(res.exception)[:120]}
 
 
+def invoke_real(case, tmp):
+    """the same command line without any recorder: asphalt really starts the root component (a CLI component returning 0)"""
+    from click.testing import CliRunner
+    import asphalt.core._cli as cli
+    import verif_cli_fixture as fx
+
+    names = []
+    for i, f in enumerate(case["files"]):
+        p = pathlib.Path(tmp, f"r{i}.yml")
+        p.write_text(yaml.dump(with_paths(f, tmp), Dumper=_Dumper))
+        names.append(str(p))
+    args = list(names)
+    for s in case["sets"]:
+        args += ["--set", s["text"]]
+    if case["flag"]:
+        args += ["--service", case["flag"]]
+    envd = dict(ENVVARS)
+    envd["ASPHALT_SERVICE"] = case["env"] if case["env"] else None
+    del fx.LAUNCHES[:]
+    res = CliRunner(env=envd).invoke(cli.run, args)
+    if len(fx.LAUNCHES) == 1 and res.exit_code == 0 and len(fx.LAUNCHES[0]) == 4:
+        cls, kwargs, tokens, backend = fx.LAUNCHES[0]
+        return {"kind": "launch", "type": tag(f"verif_cli_fixture:{cls}"), "comp": tagd(kwargs), "max_threads": tokens, "backend": backend}
+    if not fx.LAUNCHES and res.exit_code != 0:
+        return {"kind": "error", "exit": res.exit_code}
+    return {"kind": "odd", "exit": res.exit_code, "launches": len(fx.LAUNCHES), "exc": repr(res.exception)[:120]}
+
+
+def _real_chunk(chunk):
+    import logging
+    old = os.environ.pop("ASPHALT_SERVICE", None)
+    recs = []
+    with tempfile.TemporaryDirectory(dir=tlc.workdir()) as tmp:
+        pathlib.Path(tmp, "t.txt").write_text(TEXT)
+        pathlib.Path(tmp, "b.bin").write_bytes(BIN)
+        for case in chunk:
+            rec = to_spec_case(case)
+            rec["id"] = "real-" + str(case["id"])
+            rec["real"] = True
+            rec["obs"] = invoke_real(case, tmp)
+            recs.append(rec)
+    if old is not None:
+        os.environ["ASPHALT_SERVICE"] = old
+    return recs
+
+
 def to_spec_case(case):
     out = {"id": case["id"], "files": [tagd(resolve(f, None)) for f in case["files"]], "flag": case["flag"], "env": case["env"], "sets": []}
     for s in case["sets"]:
@@ -273,6 +319,17 @@ def run(tier: str, seed: int) -> core.Report:
     odd = [r for r in recs if r["obs"]["kind"] == "odd"]
     for r in odd:
         r["obs"]["kind"] = "error" if r["obs"]["calls"] == 0 else "launch-failed"
+    # a sample of the exported family is also run for real (no recorder)
+    fam_launch = [c for c in cases[:nfam] if c.get("exp", {}).get("kind") in ("launch", "error")]
+    rnd2 = random.Random(seed + 1)
+    rnd2.shuffle(fam_launch)
+    real_cases = [c for c in fam_launch if c["exp"]["kind"] == "launch"][:400 if tier == "quick" else 3000] + [c for c in fam_launch if c["exp"]["kind"] == "error"][:100]
+    rchunks = [real_cases[i:i + 50] for i in range(0, len(real_cases), 50)]
+    real_recs = [r for ch in core.pmap(_real_chunk, rchunks, chunks=1) for r in ch]
+    for r in real_recs:
+        by_id[r["id"]] = by_id[r["id"][5:]]
+    recs += real_recs
+    rep.extra["real_runs_without_recorder"] = len(real_recs)
     verdicts, d, g = core.validate_traces("Trace_C16", recs, chunk=3000)
     rep.states += d
     rep.transitions += max(d, g)
@@ -287,7 +344,7 @@ def run(tier: str, seed: int) -> core.Report:
         if v["why"] == "unspecified":
             unspecified += 1
             continue
-        if "exp" in c and c["exp"]["kind"] != r["obs"]["kind"] and v["ok"]:
+        if "exp" in c and "real" not in r and c["exp"]["kind"] != r["obs"]["kind"] and v["ok"]:
             raise core.MachineryError(f"exported expectation and batch verdict disagree on {r['id']}")
         if r["obs"]["kind"] == "launch":
             launches.add(json.dumps(r["obs"], sort_keys=True))
